@@ -976,8 +976,16 @@ func (in *Interp) next(x *ssa.Next, fr *Frame, ci *cinstr) Val {
 				return Val{x: Tuple{Val{c: 1}, Val{c: uint64(pos)}, Val{x: r}}}
 			}
 		}
-		// anything else: restrict the claim (3/4-byte sequences and invalid bytes not modelled)
-		in.end("assume", "symbolic non-ASCII/non-2-byte UTF-8 sequence not modelled")
+		// lead bytes that can never start a valid sequence, or a 2-byte lead with a bad
+		// continuation: RuneError, width 1
+		never := in.ts.BOr(in.ts.Cmp(OpUlt, t, in.ts.Const(0xC2, 8)), in.ts.Cmp(OpUlt, in.ts.Const(0xF4, 8), t))
+		twoLead := in.ts.BAnd(in.ts.Cmp(OpUle, in.ts.Const(0xC2, 8), t), in.ts.Cmp(OpUle, t, in.ts.Const(0xDF, 8)))
+		if in.ex.decide(in, in.ts.BOr(never, twoLead), "utf8-invalid") {
+			it.pos++
+			return Val{x: Tuple{Val{c: 1}, Val{c: uint64(pos)}, Val{c: 0xFFFD}}}
+		}
+		// 3/4-byte sequences are not modelled: restrict the claim
+		in.end("assume", "symbolic 3/4-byte UTF-8 sequence not modelled")
 	}
 	// concrete lead byte: need the whole rune concrete
 	var buf []byte
